@@ -54,7 +54,7 @@ func init() {
 				return 8
 			}
 			if tier == "thorough" {
-				return 1600 // 40 histories x 8 slots per schedule kind
+				return 640 // 16 histories x 8 slots per schedule kind (40 planned; ~2.5 min per history and kind measured)
 			}
 			return 40 // 1 history x 8 slots for kinds 0, 1 and 4, 8 random schedules, 8 stress histories
 		},
